@@ -57,7 +57,9 @@ where
     P: Ord,
 {
     pq: &'a mut DoublePriorityQueue<I, P, H>,
-    pos: usize,
+    // indexes of the elements not yet yielded: front..back
+    front: usize,
+    back: usize,
 }
 
 #[cfg(not(feature = "std"))]
@@ -66,7 +68,9 @@ where
     P: Ord,
 {
     pq: &'a mut DoublePriorityQueue<I, P, H>,
-    pos: usize,
+    // indexes of the elements not yet yielded: front..back
+    front: usize,
+    back: usize,
 }
 
 impl<'a, I: 'a, P: 'a, H: 'a> IterMut<'a, I, P, H>
@@ -74,7 +78,8 @@ where
     P: Ord,
 {
     pub(crate) fn new(pq: &'a mut DoublePriorityQueue<I, P, H>) -> Self {
-        IterMut { pq, pos: 0 }
+        let back = pq.len();
+        IterMut { pq, front: 0, back }
     }
 }
 
@@ -86,15 +91,23 @@ where
     type Item = (&'a mut I, &'a mut P);
     fn next(&mut self) -> Option<Self::Item> {
         use indexmap::map::MutableKeys;
+        if self.front >= self.back {
+            return None;
+        }
         let r: Option<(&'a mut I, &'a mut P)> = self
             .pq
             .store
             .map
-            .get_index_mut2(self.pos)
+            .get_index_mut2(self.front)
             .map(|(i, p)| (i as *mut I, p as *mut P))
             .map(|(i, p)| unsafe { (i.as_mut().unwrap(), p.as_mut().unwrap()) });
-        self.pos += 1;
+        self.front += 1;
         r
+    }
+
+    fn size_hint(&self) -> (usize, Option<usize>) {
+        let len = self.back - self.front;
+        (len, Some(len))
     }
 }
 
@@ -105,15 +118,16 @@ where
 {
     fn next_back(&mut self) -> Option<Self::Item> {
         use indexmap::map::MutableKeys;
-        let r: Option<(&'a mut I, &'a mut P)> = self
-            .pq
+        if self.front >= self.back {
+            return None;
+        }
+        self.back -= 1;
+        self.pq
             .store
             .map
-            .get_index_mut2(self.pos)
+            .get_index_mut2(self.back)
             .map(|(i, p)| (i as *mut I, p as *mut P))
-            .map(|(i, p)| unsafe { (i.as_mut().unwrap(), p.as_mut().unwrap()) });
-        self.pos -= 1;
-        r
+            .map(|(i, p)| unsafe { (i.as_mut().unwrap(), p.as_mut().unwrap()) })
     }
 }
 
@@ -123,7 +137,7 @@ where
     H: BuildHasher,
 {
     fn len(&self) -> usize {
-        self.pq.len()
+        self.back - self.front
     }
 }
 
